@@ -250,7 +250,7 @@ pub fn random_banks<R: Rng>(rng: &mut R, ci: u64) -> (u32, Vec<BankB>, &'static 
         }
         // one inconsistency
         let fault = if banks.len() < 2 { "none" } else { *["none", "none", "none", "rename", "rename-chunk", "swap", "dup", "dup-empty", "drop-trg", "bv", "flip", "unknown",
-                      "drop-bank", "foreign-mac", "not-installed", "dup-trg", "empty16"].choose(rng).unwrap() };
+                      "drop-bank", "foreign-mac", "not-installed", "dup-trg", "empty16", "near-name", "near-name", "trg-bit"].choose(rng).unwrap() };
         let i = rng.gen_range(0..banks.len());
         match fault {
             "rename-chunk" => {
@@ -296,6 +296,20 @@ pub fn random_banks<R: Rng>(rng: &mut R, ci: u64) -> (u32, Vec<BankB>, &'static 
                 }
             }
             "unknown" => banks[i].name = b"ZZZZ".to_vec(),
+            "near-name" => {
+                // an extra bank whose name is one character away from a recognised one (or a recognised name
+                // of another event type): unknown to the main event
+                let name = *["TRBB", "TRB0", "TRBa", "TRB ", "TRAA", "URBA", "MCVY", "MCVx", "MCV0", "NCVX", "ATAU", "ATA0", "atat",
+                             "ATAt", "SEQ2", "CBF1", "B09G", "B0AA", "C09W", "C0AA", "PCAB", "PC9 ", "PB00", "QC00"].choose(rng).unwrap();
+                banks.push(BankB::new(name, vec![rng.gen(); 6]));
+            }
+            "trg-bit" => {
+                // one bit of the TRG packet flipped (all 640 positions over the events of a run of the driver)
+                if let Some(t) = banks.iter_mut().find(|b| b.name == b"ATAT") {
+                    let bit = (ci as usize * 37) % 640;
+                    t.data[bit / 8] ^= 1 << (bit % 8);
+                }
+            }
             "drop-bank" => {
                 banks.remove(i);
             }
@@ -323,6 +337,17 @@ pub fn random_banks<R: Rng>(rng: &mut R, ci: u64) -> (u32, Vec<BankB>, &'static 
 
 /// Every wire and every pad once (one element per event) for each run class with maps.
 pub fn sweep(run: &mut Runner, runs: &[u32], stride: usize) {
+    // one bit of the TRG packet flipped, next to a good wire bank: every position (stride 1) or every fourth
+    {
+        let maps = maps_for_cached(SIM);
+        let step = if stride == 1 { 1 } else { 4 };
+        for bit in (0..640).filter(|b| b % step == (stride % step)) {
+            let mut t = trg_bank_b(777);
+            t.data[bit / 8] ^= 1 << (bit % 8);
+            let banks = vec![wire_bank(&maps, 31, wire_wave(31, 140)), t];
+            emit_event(run, SIM, "sweep-trg-bit", format!("tb{bit}"), banks, json!("?"), Detail::Slots);
+        }
+    }
     for &r in runs {
         let maps = maps_for_cached(r);
         let dw = delay(r, false);
